@@ -235,6 +235,13 @@ theorem mkRequests_tb (id : CtxId) (b : Nat) (svc : String) (cons : Addr) (to : 
 theorem onPaused_tbframe (t : State) (id : CtxId) (c : Ctx) (cause : String) : TBFrame t (onPaused t id c cause) := by
   unfold onPaused; split <;> exact TBFrame.of_eq rfl rfl rfl rfl rfl
 
+theorem initiateRequests_tb (t : State) (id : CtxId) (provs : List Addr) :
+    (initiateRequests t id provs).earned = t.earned ∧ (initiateRequests t id provs).oearned = t.oearned ∧
+    (initiateRequests t id provs).owners = t.owners ∧ (initiateRequests t id provs).binds = t.binds ∧
+    ∀ e, e ∈ (initiateRequests t id provs).reqs → e ∈ t.reqs ∨ e.2.provider ∈ provs := by
+  unfold initiateRequests
+  exact mkRequests_tb id _ _ _ _ provs 0 t
+
 theorem TB_newBatch {s : State} (h : TB s) (id : CtxId) : TB (newBatch s id) := by
   unfold newBatch
   split
@@ -244,21 +251,20 @@ theorem TB_newBatch {s : State} (h : TB s) (id : CtxId) : TB (newBatch s id) := 
       split
       · unfold chargeAndStart
         split
-        · obtain ⟨m1, m2, m3, m4, m5⟩ := mkRequests_tb id ((getCtx s id).batchCounter + 1) (getCtx s id).svc
-            (getCtx s id).consumer (getCtx s id).timeout provs 0
-            { s with bank := creditCoins (debitCoins s.bank (getCtx s id).consumer (sortCoins total)).1 reqAcc (sortCoins total) }
+        · obtain ⟨m1, m2, m3, m4, m5⟩ := initiateRequests_tb
+            { s with bank := creditCoins (debitCoins s.bank (getCtx s id).consumer (sortCoins total)).1 reqAcc (sortCoins total) } id provs
           have hmem := filterProviders_mem s (getCtx s id) (getCtx s id).providers [] [] provs total hfp
           refine ⟨?_, ?_, ?_, ?_, ?_, ?_⟩
           · intro o d
             have := h.tally o d
             unfold providersEarned ownerEarned ownedBy at this ⊢
-            simp only [delNew, addExp, initiateRequests, setCtx]
+            simp only [delNew, addExp]
             rw [m1, m2, m3]; exact this
-          · simp only [delNew, addExp, initiateRequests, setCtx]; rw [m1]; exact h.nd1
-          · simp only [delNew, addExp, initiateRequests, setCtx]; rw [m2]; exact h.nd2
-          · simp only [delNew, addExp, initiateRequests, setCtx]; rw [m1, m3]; exact h.earnedO
+          · simp only [delNew, addExp]; rw [m1]; exact h.nd1
+          · simp only [delNew, addExp]; rw [m2]; exact h.nd2
+          · simp only [delNew, addExp]; rw [m1, m3]; exact h.earnedO
           · intro e he
-            simp only [delNew, addExp, initiateRequests, setCtx] at he ⊢
+            simp only [delNew, addExp] at he ⊢
             rw [m3]
             rcases m5 e he with h' | h'
             · exact h.reqO e h'
@@ -266,7 +272,7 @@ theorem TB_newBatch {s : State} (h : TB s) (id : CtxId) : TB (newBatch s id) := 
               · cases hn
               · exact h.bindO _ (get?_mem _ _ _ hb)
           · intro e he
-            simp only [delNew, addExp, initiateRequests, setCtx] at he ⊢
+            simp only [delNew, addExp] at he ⊢
             rw [m3]; rw [m4] at he
             exact h.bindO e he
         · exact h.of_frame ((onPaused_tbframe s id _ _).trans (TBFrame.of_eq rfl rfl rfl rfl rfl))
@@ -294,5 +300,396 @@ theorem TB_nextBlock {s : State} (h : TB s) (dt : Int) : TB (nextBlock s dt) := 
 theorem TB_skipBlocks (dt : Int) : ∀ (n : Nat) (s : State), TB s → TB (skipBlocks s dt n)
   | 0, _, h => h
   | n + 1, s, h => TB_skipBlocks dt n (nextBlock s dt) (TB_nextBlock h dt)
+
+end Irismod.Proofs.Service
+
+namespace Irismod.Proofs.Service
+open Irismod Irismod.Sdk Irismod.Service Irismod.Spec.C07
+
+/-! ### message handlers -/
+
+/-- a new binding: the provider gets an owner unless it has one; one binding key is added for that provider -/
+theorem TB.bindLike {s s' : State} (h : TB s) (provider owner : Addr) (e1 : s'.earned = s.earned) (e2 : s'.oearned = s.oearned)
+    (e4 : s'.reqs = s.reqs)
+    (e3 : s'.owners = if AMap.contains s.owners provider then s.owners else AMap.set s.owners provider owner)
+    (e5 : ∀ x, x ∈ s'.binds → x ∈ s.binds ∨ x.1.2 = provider) : TB s' := by
+  by_cases hc : AMap.contains s.owners provider = true
+  · rw [if_pos hc] at e3
+    refine ⟨?_, by rw [e1]; exact h.nd1, by rw [e2]; exact h.nd2, by rw [e1, e3]; exact h.earnedO,
+      by rw [e4, e3]; exact h.reqO, ?_⟩
+    · intro o d
+      have := h.tally o d
+      unfold providersEarned ownerEarned ownedBy at this ⊢
+      rw [e1, e2, e3]; exact this
+    · intro x hx
+      rw [e3]
+      rcases e5 x hx with h' | h'
+      · exact h.bindO x h'
+      · rw [h']; exact hc
+  · rw [if_neg hc] at e3
+    have hmono : ∀ a, AMap.contains s.owners a = true → AMap.contains s'.owners a = true := by
+      intro a ha; rw [e3]; exact contains_set_mono _ _ _ _ ha
+    refine ⟨?_, by rw [e1]; exact h.nd1, by rw [e2]; exact h.nd2, ?_, ?_, ?_⟩
+    · intro o d
+      have := h.tally o d
+      unfold providersEarned ownerEarned ownedBy at this ⊢
+      rw [e1, e2, e3, ← this]
+      apply sumIf_congr_mem
+      intro e he
+      have hne : provider ≠ e.1.1 := by
+        intro heq
+        exact hc (by rw [heq]; exact h.earnedO e he)
+      rw [AMap.get?_set_other _ _ _ _ hne]
+    · intro e he; rw [e1] at he; exact hmono _ (h.earnedO e he)
+    · intro e he; rw [e4] at he; exact hmono _ (h.reqO e he)
+    · intro x hx
+      rcases e5 x hx with h' | h'
+      · exact hmono _ (h.bindO x h')
+      · rw [h', e3, contains_iff]; exact ⟨owner, AMap.get?_set_self _ _ _⟩
+
+theorem TB_bind {s s' : State} {owner provider svc dep qos pin optsOk} (hs : TB s)
+    (h : stepBind s owner provider svc dep qos pin optsOk = .ok s') : TB s' := by
+  unfold stepBind at h
+  split at h
+  · cases h
+  split at h
+  · cases h
+  obtain ⟨d, pr, bank, _, _, _, rfl⟩ := keeperBind_inv h
+  refine hs.bindLike provider owner rfl rfl rfl rfl ?_
+  intro x hx
+  simp only [bindState] at hx
+  rcases mem_set _ _ _ _ hx with h' | h'
+  · exact Or.inl h'
+  · right; rw [h']
+
+theorem TB_updateBinding {s s' : State} {owner provider svc dep qos pin opts} (hs : TB s)
+    (h : stepUpdateBinding s owner provider svc dep qos pin opts = .ok s') : TB s' := by
+  unfold stepUpdateBinding at h
+  split at h
+  · cases h
+  obtain ⟨b, d, pr, bank, hb, _, _, _, rfl⟩ := keeperUpdateBinding_inv h
+  refine hs.of_frame ⟨rfl, rfl, rfl, fun _ h => h, ?_⟩
+  split
+  · exact binds_set_existing hb _ _ rfl
+  · exact binds_same rfl
+
+theorem TB_disable {s s' : State} {owner provider svc} (hs : TB s)
+    (h : stepDisable s owner provider svc = .ok s') : TB s' := by
+  unfold stepDisable at h
+  split at h
+  · cases h
+  split at h
+  · cases h
+  rename_i b hb
+  split at h
+  · cases h
+  split at h
+  · cases h
+  cases h
+  exact hs.of_frame ⟨rfl, rfl, rfl, fun _ h => h, binds_set_existing hb _ _ rfl⟩
+
+theorem TB_enable {s s' : State} {owner provider svc dep} (hs : TB s)
+    (h : stepEnable s owner provider svc dep = .ok s') : TB s' := by
+  unfold stepEnable at h
+  split at h
+  · cases h
+  unfold keeperEnable at h
+  split at h
+  · cases h
+  rename_i b hb
+  split at h
+  · cases h
+  split at h
+  · cases h
+  split at h
+  · cases h
+  split at h
+  · cases h
+  split at h
+  · cases h
+  cases h
+  exact hs.of_frame ⟨rfl, rfl, rfl, fun _ h => h, binds_set_existing hb _ _ rfl⟩
+
+theorem TB_refundDeposit {s s' : State} {owner provider svc} (hs : TB s)
+    (h : stepRefundDeposit s owner provider svc = .ok s') : TB s' := by
+  unfold stepRefundDeposit at h
+  split at h
+  · cases h
+  unfold keeperRefundDeposit at h
+  split at h
+  · cases h
+  rename_i b hb
+  split at h
+  · cases h
+  split at h
+  · cases h
+  split at h
+  · cases h
+  split at h
+  · cases h
+  split at h
+  · cases h
+  cases h
+  exact hs.of_frame ⟨rfl, rfl, rfl, fun _ h => h, binds_set_existing hb _ _ rfl⟩
+
+theorem TB_createCtx {s s' : State} {newId svc providers consumer inputOk cap timeout repeated freq total st thr moduleName}
+    (hs : TB s)
+    (h : createCtx s newId svc providers consumer inputOk cap timeout repeated freq total st thr moduleName = .ok s') :
+    TB s' := by
+  unfold createCtx at h
+  split at h
+  · cases h
+  split at h
+  · cases h
+  split at h
+  · cases h
+  split at h
+  · cases h
+  split at h
+  · cases h
+  cases h
+  unfold createState
+  split <;> exact hs.of_frame (TBFrame.of_eq rfl rfl rfl rfl rfl)
+
+theorem TB_call {s s' : State} {newId consumer svc providers cap timeout repeated freq total inputOk} (hs : TB s)
+    (h : stepCall s newId consumer svc providers cap timeout repeated freq total inputOk = .ok s') : TB s' := by
+  unfold stepCall at h
+  split at h
+  · cases h
+  split at h
+  · cases h
+  split at h
+  · cases h
+  exact TB_createCtx hs h
+
+theorem TB_keeperPause {s s' : State} {id consumer} (hs : TB s) (h : keeperPause s id consumer = .ok s') : TB s' := by
+  unfold keeperPause at h
+  split at h
+  · cases h
+  split at h
+  · cases h
+  split at h
+  · cases h
+  split at h
+  · cases h
+  cases h
+  exact hs.of_frame (TBFrame.of_eq rfl rfl rfl rfl rfl)
+
+theorem TB_keeperStart {s s' : State} {id consumer} (hs : TB s) (h : keeperStart s id consumer = .ok s') : TB s' := by
+  unfold keeperStart at h
+  split at h
+  · cases h
+  split at h
+  · cases h
+  split at h
+  · cases h
+  split at h
+  · cases h
+  cases h
+  split <;> exact hs.of_frame (TBFrame.of_eq rfl rfl rfl rfl rfl)
+
+theorem TB_keeperKill {s s' : State} {id consumer} (hs : TB s) (h : keeperKill s id consumer = .ok s') : TB s' := by
+  unfold keeperKill at h
+  split at h
+  · cases h
+  split at h
+  · cases h
+  split at h
+  · cases h
+  cases h
+  exact hs.of_frame (TBFrame.of_eq rfl rfl rfl rfl rfl)
+
+theorem TB_keeperUpdate {s s' : State} {id providers thr cap timeout freq total consumer} (hs : TB s)
+    (h : keeperUpdate s id providers thr cap timeout freq total consumer = .ok s') : TB s' := by
+  unfold keeperUpdate at h
+  split at h
+  · cases h
+  split at h
+  · cases h
+  split at h
+  · cases h
+  split at h
+  · cases h
+  split at h
+  · cases h
+  split at h
+  · cases h
+  split at h
+  · cases h
+  split at h
+  · cases h
+  split at h
+  · cases h
+  cases h
+  exact hs.of_frame (TBFrame.of_eq rfl rfl rfl rfl rfl)
+
+theorem bump_mem {m : AMap (Addr × Denom) Nat} {a : Addr} {d : Denom} {n : Nat} {e : (Addr × Denom) × Nat}
+    (h : e ∈ bump m a d n) : e ∈ m ∨ e.1.1 = a := by
+  unfold bump at h
+  split at h
+  · exact Or.inl h
+  · rcases mem_set _ _ _ _ h with h' | h'
+    · exact Or.inl h'
+    · right; rw [h']
+
+theorem KeysNodup.bump {m : AMap (Addr × Denom) Nat} (h : KeysNodup m) (a : Addr) (d : Denom) (n : Nat) :
+    KeysNodup (Irismod.Service.bump m a d n) := by
+  unfold Irismod.Service.bump
+  split
+  · exact h
+  · exact h.set _ _
+
+theorem TB_countResponse {s : State} (hs : TB s) (id : CtxId) : TB (countResponse s id) := by
+  unfold countResponse
+  split
+  · unfold storeCtx completeBatch callback
+    split <;> exact hs.of_frame (TBFrame.of_eq rfl rfl rfl rfl rfl)
+  · exact hs.of_frame (TBFrame.of_eq rfl rfl rfl rfl rfl)
+
+theorem TB_respond {s s' : State} {provider rid code out resOk} (hs : TB s)
+    (h : stepRespond s provider rid code out resOk = .ok s') : TB s' := by
+  unfold stepRespond at h
+  split at h
+  · cases h
+  split at h
+  · cases h
+  unfold keeperRespond at h
+  split at h
+  · cases h
+  rename_i rq rc hreq
+  split at h
+  · cases h
+  rename_i hprov
+  split at h
+  · cases h
+  split at h
+  · cases h
+  rename_i s1 hfee
+  cases h
+  have hprov' : provider = rq.provider := Decidable.of_not_not hprov
+  -- the request is stored, so its provider has an owner
+  have hmem : ∃ r, (r, rq) ∈ s.reqs := by
+    unfold getRequest at hreq
+    split at hreq
+    · cases hreq
+    rename_i rq' hg
+    split at hreq
+    · cases hreq
+    cases hreq
+    exact ⟨_, get?_mem _ _ _ hg⟩
+  obtain ⟨r, hr⟩ := hmem
+  have hown := hs.reqO _ hr
+  rw [contains_iff] at hown
+  obtain ⟨o, ho⟩ := hown
+  simp only at ho
+  rw [← hprov'] at ho
+  unfold addEarnedFee at hfee
+  split at hfee
+  · cases hfee
+  split at hfee
+  · cases hfee
+  cases hfee
+  have hgd : AMap.getD s.owners provider "" = o := by unfold AMap.getD; rw [ho]; rfl
+  refine TB_countResponse ?_ _
+  refine ⟨?_, ?_, ?_, ?_, ?_, ?_⟩
+  · exact tally_bump hs.tally ho _ _ _ rfl (by simp only [recordResponse]; rw [hgd]) rfl
+  · exact hs.nd1.bump _ _ _
+  · exact hs.nd2.bump _ _ _
+  · intro e he
+    simp only [recordResponse] at he ⊢
+    rcases bump_mem he with h' | h'
+    · exact hs.earnedO e h'
+    · rw [h', contains_iff]; exact ⟨o, ho⟩
+  · exact hs.reqO
+  · exact hs.bindO
+
+theorem mem_eraseAll {m : AMap (Addr × Denom) Nat} {a : Addr} {e : (Addr × Denom) × Nat} (h : e ∈ eraseAll m a) : e ∈ m := by
+  unfold eraseAll at h
+  exact (List.mem_filter.mp h).1
+
+theorem TB_withdrawProvider {s s' : State} {owner p : Addr} (hs : TB s) (h : withdrawProvider s owner p = .ok s') : TB s' := by
+  obtain ⟨t1, t2, t3⟩ := tally_withdrawProvider hs.tally hs.nd1 hs.nd2 h
+  unfold withdrawProvider at h
+  split at h
+  · cases h
+  split at h
+  · cases h
+  split at h
+  · cases h
+  cases h
+  exact ⟨t1, t2, t3, fun e he => hs.earnedO e (mem_eraseAll he), hs.reqO, hs.bindO⟩
+
+theorem TB_stepCore {s s' : State} {op : Op} (hs : TB s) (hr : opReachable op) (h : stepCore s op = .ok s') : TB s' := by
+  cases op with
+  | define sender name schOk =>
+    simp only [stepCore, stepDefine] at h
+    split at h
+    · cases h
+    split at h
+    · cases h
+    split at h
+    · cases h
+    split at h
+    · cases h
+    cases h
+    exact hs.of_frame (TBFrame.of_eq rfl rfl rfl rfl rfl)
+  | bind owner provider svc dep qos pin optsOk => exact TB_bind hs h
+  | updateBinding owner provider svc dep qos pin opts => exact TB_updateBinding hs h
+  | setWithdraw owner addr =>
+    simp only [stepCore, stepSetWithdraw] at h
+    split at h
+    · cases h
+    split at h
+    · cases h
+    cases h
+    exact hs.of_frame (TBFrame.of_eq rfl rfl rfl rfl rfl)
+  | enable owner provider svc dep => exact TB_enable hs h
+  | disable owner provider svc => exact TB_disable hs h
+  | refundDeposit owner provider svc => exact TB_refundDeposit hs h
+  | call tx consumer svc providers cap timeout repeated freq total inputOk => exact TB_call hs h
+  | mcall tx consumer svc providers cap timeout repeated freq total inputOk paused thr modName => exact TB_createCtx hs h
+  | respond provider rid code out resOk => exact TB_respond hs h
+  | withdraw owner provider =>
+    simp only [stepCore, stepWithdraw] at h
+    split at h
+    · cases h
+    split at h
+    · cases h
+    exact TB_withdrawProvider hs h
+  | withdrawK owner provider =>
+    cases provider with
+    | none => exact absurd hr (by simp [opReachable])
+    | some p => exact TB_withdrawProvider hs h
+  | pause consumer id => exact TB_keeperPause hs (stepPause_inv h)
+  | start consumer id => exact TB_keeperStart hs (stepStart_inv h)
+  | kill consumer id => exact TB_keeperKill hs (stepKill_inv h)
+  | updateCtx consumer id providers cap timeout freq total => exact TB_keeperUpdate hs (stepUpdateCtx_inv h)
+  | mpause consumer id => exact TB_keeperPause hs h
+  | mstart consumer id => exact TB_keeperStart hs h
+  | mkill consumer id => exact TB_keeperKill hs h
+  | mupdate consumer id providers thr cap timeout freq total => exact TB_keeperUpdate hs h
+  | setRate d r =>
+    simp only [stepCore] at h
+    cases h
+    exact hs.of_frame (TBFrame.of_eq rfl rfl rfl rfl rfl)
+  | next dt =>
+    simp only [stepCore] at h
+    cases h
+    exact TB_nextBlock hs dt
+  | skip n dt =>
+    simp only [stepCore] at h
+    cases h
+    exact TB_skipBlocks dt n s hs
+
+theorem TB_empty (s : State) (h1 : s.earned = []) (h2 : s.oearned = []) (h3 : s.reqs = []) (h4 : s.binds = []) : TB s := by
+  refine ⟨?_, ?_, ?_, ?_, ?_, ?_⟩
+  · intro o d
+    unfold providersEarned ownerEarned
+    rw [h1, h2]; rfl
+  · unfold KeysNodup; rw [h1]; exact List.nodup_nil
+  · unfold KeysNodup; rw [h2]; exact List.nodup_nil
+  · intro e he; rw [h1] at he; cases he
+  · intro e he; rw [h3] at he; cases he
+  · intro e he; rw [h4] at he; cases he
 
 end Irismod.Proofs.Service
